@@ -11,12 +11,15 @@ CODE_PROPS = {101: ["C01", "C02"], 102: ["C01", "C04"], 103: ["C01"], 201: ["C02
               401: ["C04"], 501: ["C11"], 502: ["C11"], 601: ["C05"]}
 
 
-def shrink(binary, hist, pred, budget=40):
-    """Greedy delta-debugging on the operation list: drop chunks while pred(history) still fails."""
+def shrink(binary, hist, pred, budget=40, seconds=75):
+    """Greedy delta-debugging on the operation list: drop chunks while pred(history) still fails
+    (at most [budget] attempts and [seconds] of wall time)."""
+    import time as _t
+    t0 = _t.time()
     ops = list(hist["ops"])
     n = 2
     tries = 0
-    while len(ops) >= 2 and tries < budget:
+    while len(ops) >= 2 and tries < budget and _t.time() - t0 < seconds:
         chunk = max(1, len(ops) // n)
         reduced = False
         for i in range(0, len(ops), chunk):
@@ -24,6 +27,8 @@ def shrink(binary, hist, pred, budget=40):
             if not cand:
                 continue
             tries += 1
+            if _t.time() - t0 >= seconds:
+                break
             h2 = dict(hist)
             h2["ops"] = cand
             if pred(h2):
@@ -114,7 +119,8 @@ def run(chk, prop, profiles, n_quick, n_thorough, codes, replay=None, extra_hist
             o2, r2, _ = procgen.run_and_evaluate(binary, [h2], name=pid.lower() + "_shrink", shards=1)
             return o2 is not None and "error" not in r2 and any(v[1] == code for v in r2["viols"])
         small = hists[hi]
-        if len(seen_h) <= 2 and chk.tier == "quick":
+        heavy = any(o["op"] == "bulk" for o in hists[hi]["ops"])    # minutes per attempt: reported as found
+        if len(seen_h) <= 2 and chk.tier == "quick" and not heavy:
             try:
                 small = shrink(binary, hists[hi], still_fails)
             except Exception:
